@@ -127,8 +127,10 @@ func histConfig(a vh.Args, i int) histCfg {
 		cfg.onDisk, cfg.concurrent, cfg.lateJoin = true, false, true
 		cfg.snapEvery = 20
 		cfg.snapshotOps = true
+		cfg.restore = true
 	case i == 2: // regular state machine, membership changes through the API
 		cfg.membership, cfg.sessions, cfg.snapshotOps = true, true, true
+		cfg.restore = true
 	case i == 3: // regular state machine, non-voting replica from the start, no restart
 		cfg.quiesce, cfg.notifyCommit, cfg.queryLog = true, true, true
 	default:
@@ -147,6 +149,7 @@ func histConfig(a vh.Args, i int) histCfg {
 		cfg.snapshotOps = d.Bool()
 		cfg.queryLog = d.Bool()
 		cfg.quiesce = d.Chance(1, 4)
+		cfg.restore = d.Bool()
 	}
 	if cfg.quiesce {
 		cfg.duration += 500 * time.Millisecond // the idle period
@@ -323,7 +326,7 @@ func dims(c histCfg) string {
 		on   bool
 		name string
 	}{{c.onDisk, "ondisk"}, {c.notifyCommit, "notifycommit"}, {c.sessions, "sessions"}, {c.lateJoin && c.nonVoting, "latejoin"},
-		{c.membership, "membership"}, {c.snapshotOps, "snapshotops"}, {c.queryLog, "querylog"}, {c.quiesce, "quiesce"}} {
+		{c.membership, "membership"}, {c.snapshotOps, "snapshotops"}, {c.queryLog, "querylog"}, {c.quiesce, "quiesce"}, {c.restore, "restore"}} {
 		if x.on {
 			d = append(d, x.name)
 		}
